@@ -399,6 +399,11 @@ func runC06(ctx *h.Ctx) int {
 		} else {
 			what = lm.Moves[pick-len(lm.Texts)].Label
 		}
+		nearMiss := k.R.IntN(5) == 0
+		if nearMiss {
+			// the same shape with an index no generated label has: no clash, the file must keep compiling
+			what = what[:strings.LastIndex(what, "_")+1] + fmt.Sprint(90+k.R.IntN(9))
+		}
 		// (one time in three the user item is of the OTHER family: a movement named like a hoisted text label or
 		// a text named like a hoisted movement label is a clash just the same)
 		if (pick < len(lm.Texts)) != (k.R.IntN(3) == 0) {
@@ -416,6 +421,23 @@ func runC06(ctx *h.Ctx) int {
 		k.Count("evaluations", 1)
 		if res.Panic != nil {
 			k.Violation("clash-panic", fmt.Sprintf("panic instead of an error for a clash on %q: %v", what, res.Panic), nil)
+			return
+		}
+		if nearMiss {
+			if res.Err != nil {
+				if !strings.Contains(res.ErrString(), "no poryswitch case found") {
+					k.Violation("near-miss-rejected", fmt.Sprintf("a text/movement named %q (shaped like a generated label, equal to none) makes the file fail: %s", what, res.ErrString()), nil)
+				}
+				return
+			}
+			f := asm.Parse(res.Out)
+			for name, defs := range f.Labels {
+				if len(defs) > 1 {
+					k.Violation("near-miss-duplicates", fmt.Sprintf("with a text/movement named %q label %q is defined %d times", what, name, len(defs)), map[string]interface{}{"output": res.Out})
+					return
+				}
+			}
+			k.Count("near_miss_names_accepted", 1)
 			return
 		}
 		if res.Err == nil {
